@@ -203,3 +203,48 @@ Definition sem_rv_case (i r : sexp) : verdict :=
   | _ => VBad "input shape"
   end.
 Definition run_sem_rv : string -> string := run_cases sem_rv_case.
+
+(* ---------- C14: well-formedness of the implementation's output ---------- *)
+From SCC Require Import Sem.RVWf Sem.LabelGuard.
+Open Scope string_scope.
+Definition guard_tag (p : sexp) : string :=
+  match g_prog p with
+  | Some pp => (if labels_guard pp then " guard" else if name_digits pp then " name-digits" else " noguard")
+               ++ (if calls_guard pp then "" else " open-calls")
+  | None => ""
+  end.
+Definition wf_rv_case (i r : sexp) : verdict :=
+  let '(r, _, _) := split_all r in
+  match i, r with
+  | L [Q _; p; lc; _], L [cs; n; Q text] =>
+      match g_ritems cs with
+      | Some items =>
+          let cs := codes_of items in
+          match asm_wf cs with
+          | Some why =>
+              match first_dup ("cleanup" :: defined_labels cs), g_prog p with
+              | Some l, Some pp => if name_digits pp then VViol ("class=label-collision-name-digits " ++ why)
+                                   else VViol ("class=asm-ill-formed-rv " ++ why)
+              | _, _ => VViol ("class=asm-ill-formed-rv " ++ why)
+              end
+          | None =>
+              (* a conditional branch beyond +-4 KiB / JAL beyond +-1 MiB even with the smallest encodings:
+                 reported as a tag pending a ruling (GNU as relaxes such branches, other assemblers reject them);
+                 to count it as a violation answer VViol ("class=rv-branch-out-of-range ..." ) here *)
+              let far := match branches_in_range cs with Some _ => true | None => false end in
+              match tt with
+              | tt =>
+                  let nlab := List.length (defined_labels cs) in
+                  let tag (b : bool) (s : string) := if b then " " ++ s else "" in
+                  VOk ("nt labels" ++ n_to_string (N.log2 (N.of_nat nlab + 1)) ++ tag far "far-branch"
+                       ++ tag (has (fun c => match c with LA _ _ => true | _ => false end) cs) "table"
+                       ++ tag (has (fun c => match c with SW _ _ _ => true | _ => false end) cs) "mem"
+                       ++ " kb" ++ z_to_string (code_bytes cs / 1024) ++ guard_tag p)
+              end
+          end
+      | None => VBad "rust output unreadable"
+      end
+  | _, L [A "PANIC"; _] => VSkip "implementation panicked (capacity or print)"
+  | _, _ => VBad "case shape"
+  end.
+Definition run_wf_rv : string -> string := run_cases wf_rv_case.
